@@ -160,6 +160,10 @@ def run(tier):
         if f.endswith(".circom"):
             lattice_projects.append([{"path": f, "named": True, "text": open(os.path.join(cdir, f)).read()}])
     lattice_projects.append([{"path": "big.circom", "named": True, "text": COMPLEX}, {"path": "lib.circom", "named": False, "text": COMPLEX_LIB}])
+    # multi-byte characters in front of the reported constructs, on their lines: SARIF columns count characters, as the terminal does
+    mb = open(os.path.join(cdir, "p5.circom")).read()
+    mb = "\n".join(("/*é日本😀*/ " + ln if ln.startswith("  ") else ln) for ln in mb.split("\n"))
+    lattice_projects.append([{"path": "multibyte.circom", "named": True, "text": mb}])
     # a named file that is also included by another named file, in both command-line orders: user-specified all the same
     lattice_projects.append([{"path": "big.circom", "named": True, "text": COMPLEX}, {"path": "lib.circom", "named": True, "text": COMPLEX_LIB}])
     lattice_projects.append([{"path": "lib.circom", "named": True, "text": COMPLEX_LIB}, {"path": "big.circom", "named": True, "text": COMPLEX}])
